@@ -79,6 +79,9 @@ def gen_case(rng, i):
     if i % 7 == 3:
         b, extra = np.round(b), np.round(extra)     # integer-valued targets (handed over as int64 by the harness)
     s["registered"] = bool(rng.integers(5) == 0)
+    # a third, clearly out-of-gamut row (used with error='ignore'/'warn' only): batches that mix answered and best-fitted rows
+    p3, u3 = Z.facet_points(rng, 1)
+    s["extra2"] = p3[0] + u3[0] * Z.extent * float(rng.uniform(0.2, 1.0))
     s.update({"b": b, "cls": k, "extra": extra, "two_rows": bool(rng.integers(3) == 0),
               "error": ["raise", "ignore", "warn"][rng.integers(3)], "nsp": nsp,
               "api": ["function", "estimator"][rng.integers(2)], "rank1": bool(rng.integers(2))})
@@ -112,7 +115,12 @@ def chk_case(inp, c):
     two = inp["two_rows"]
     if two and float(Z.depth(inp["extra"])[0]) / Z.extent < 1e-6:
         two = False        # the companion row must be strictly inside (an integer-rounded one may not be): judge b alone
-    if two:
+    three = (two and error != "raise" and inp.get("extra2") is not None
+             and float(Z.depth(inp["extra2"])[0]) / Z.extent <= -1e-3)
+    if three:
+        B = np.array([b, inp["extra"], inp["extra2"]])        # [judged row, inside, outside]
+        c.cell("three-rows")
+    elif two:
         B = np.array([b, inp["extra"]])
         c.cell("two-rows")
     elif inp["rank1"]:
